@@ -314,7 +314,10 @@ def run(ctx):
         ctx.undecide('R09.5', 'deadpool-postgres Manager::detach not extracted')
     else:
         ctx.saw(pg)
-        fw = [blk for blk in pg.blocks if blk.term.kind == 'call' and blk.term.rcallee and strip_generics(blk.term.rcallee) == 'deadpool_postgres::StatementCaches::detach']
+        # (normal form: the registry's private detach helper is part of this body) the registry is filtered here
+        pan_ = prog.an(pg)
+        fw = [blk for blk in pg.blocks if blk.term.kind == 'call' and not blk.cleanup and blk.term.args and any(n.startswith('std::vec::Vec::') and n.endswith('::retain') for n in blk.term.callee_names()) and
+              any(s_[0] == 'field' and s_[1].startswith('deadpool_postgres::StatementCaches.') for s_ in sources(pan_, blk.term.args[0], deep=True))]
         ctx.ob('R09.5', 'postgres Manager::detach forwards to the statement cache registry', len(fw) == 1, ctx.where(pg), '', construct='pg-detach-forward')
 
     # ---- R09.9 take / retain / the Drop paths keep all three books (effect ledger) ------------------------------
